@@ -646,7 +646,8 @@ theorem drainage_balance_inv (F : Fn α) (E : ExpLaws F) (cells : List (Cell α)
 (`exp x := 1 + x` satisfies `ExpLaws`), and the top cell drains. -/
 
 section Example
-def exF : Fn ℚ := ⟨fun x => 1 + x, fun x => x - 1, id, fun x _ => x, id, id, id, id, id⟩
+def exF : Fn ℚ :=
+  ⟨fun x => 1 + x, fun x => x - 1, id, fun x y => if y = 2 then x * x else x, id, id, id, id, id⟩
 def exC1 : Comp ℚ := ⟨1/10, 1/10, 1/20, 1/2, 3/10, 1/10, 1/20, 1/2, 500, 100, 0, 0, 1⟩
 def exC2 : Comp ℚ := ⟨1/10, 1/5, 3/20, 1/2, 3/10, 1/10, 1/20, 1/2, 500, 100, 0, 0, 1⟩
 def exCells : List (Cell ℚ) := [⟨exC1, 1/2, 3/10, 0, 0⟩, ⟨exC2, 2/5, 3/10, 0, 0⟩]
